@@ -243,3 +243,68 @@ Proof.
   intros s t h pc Eh NE. unfold astep. rewrite Eh.
   destruct (Z.eqb_spec t h) as [E|_]; [congruence|]. cbn [negb]. split; [reflexivity | intros k; reflexivity].
 Qed.
+
+(* ------------------------------------------------------------------ sends between received packets *)
+
+Lemma hist_run_cons : forall need nenv ps s h r,
+  hist_run need nenv ps s (h :: r) =
+  (fst (hist_op need nenv ps s h) :: fst (hist_run need nenv ps (snd (hist_op need nenv ps s h)) r),
+   snd (hist_run need nenv ps (snd (hist_op need nenv ps s h)) r)).
+Proof.
+  intros need nenv ps s h r. cbn [hist_run].
+  destruct (hist_op need nenv ps s h) as [x s1]. cbn [fst snd].
+  destruct (hist_run need nenv ps s1 r) as [xs s2]. reflexivity.
+Qed.
+
+Lemma routing_ignores_sends : forall need nenv ps hs m tm,
+  rx_outs (fst (hist_run need nenv ps (m, tm) hs)) = fst (route_ops need nenv m (rx_ops hs)) /\
+  fst (snd (hist_run need nenv ps (m, tm) hs)) = snd (route_ops need nenv m (rx_ops hs)).
+Proof.
+  intros need nenv ps hs. induction hs as [|h r IH]; intros m tm.
+  - cbn. split; reflexivity.
+  - rewrite hist_run_cons. destruct h as [o | id typ pkgs | id].
+    + cbn [rx_ops]. rewrite route_ops_cons. cbn [hist_op fst snd].
+      destruct (route_op need nenv m o) as [x m1]. cbn [fst snd rx_outs].
+      destruct (IH m1 (match o with OClose k => tm_del k tm | OPkt _ => tm end)) as [H1 H2].
+      split; [f_equal; exact H1 | exact H2].
+    + cbn [rx_ops hist_op fst snd].
+      destruct (tm_find id tm) as [st|]; [destruct (send_message ps id typ pkgs st) as [[ws st']|] |];
+        cbn [fst snd rx_outs]; apply IH.
+    + cbn [rx_ops hist_op fst snd].
+      destruct (tm_find id tm) as [st|]; cbn [fst snd rx_outs]; apply IH.
+Qed.
+
+Lemma routing_with_sends : forall need nenv ps hs m tm id st,
+  cm_find id m = Some st ->
+  existsb (closes id) (rx_ops hs) = false ->
+  events_of id (rx_outs (fst (hist_run need nenv ps (m, tm) hs))) = fst (rx_run need nenv st (pkts_for id (rx_ops hs))) /\
+  cm_find id (fst (snd (hist_run need nenv ps (m, tm) hs))) = Some (snd (rx_run need nenv st (pkts_for id (rx_ops hs)))).
+Proof.
+  intros need nenv ps hs m tm id st Hf Hc.
+  destruct (routing_ignores_sends need nenv ps hs m tm) as [H1 H2]. rewrite H1, H2.
+  apply routing_frame; assumption.
+Qed.
+
+Lemma sends_ignore_routing : forall need nenv ps hs m m' tm,
+  tx_outs (fst (hist_run need nenv ps (m, tm) hs)) = tx_outs (fst (hist_run need nenv ps (m', tm) (tx_hops hs))) /\
+  snd (snd (hist_run need nenv ps (m, tm) hs)) = snd (snd (hist_run need nenv ps (m', tm) (tx_hops hs))).
+Proof.
+  intros need nenv ps hs. induction hs as [|h r IH]; intros m m' tm.
+  - cbn. split; reflexivity.
+  - destruct h as [[p | k] | id typ pkgs | id]; cbn [tx_hops].
+    + rewrite hist_run_cons. cbn [hist_op fst snd].
+      destruct (route_op need nenv m (OPkt p)) as [x m1]. cbn [fst snd tx_outs]. apply IH.
+    + rewrite !hist_run_cons. cbn [hist_op fst snd].
+      destruct (route_op need nenv m (OClose k)) as [x m1].
+      destruct (route_op need nenv m' (OClose k)) as [x' m1']. cbn [fst snd tx_outs]. apply IH.
+    + rewrite !hist_run_cons. cbn [hist_op fst snd].
+      destruct (tm_find id tm) as [st|]; [destruct (send_message ps id typ pkgs st) as [[ws st']|] |];
+        cbn [fst snd tx_outs]; destruct (IH m m' tm) as [H1 H2].
+      * destruct (IH m m' (tm_set id st' tm)) as [H3 H4]. split; [f_equal; exact H3 | exact H4].
+      * split; [f_equal; exact H1 | exact H2].
+      * split; [f_equal; exact H1 | exact H2].
+    + rewrite !hist_run_cons. cbn [hist_op fst snd].
+      destruct (tm_find id tm) as [st|]; cbn [fst snd tx_outs].
+      * destruct (IH m m' (tm_set id {| tq := reset (tq st); tnr := tnr st |} tm)) as [H3 H4]. split; [f_equal; exact H3 | exact H4].
+      * destruct (IH m m' tm) as [H1 H2]. split; [f_equal; exact H1 | exact H2].
+Qed.
